@@ -489,6 +489,7 @@ func checkReleaseAlways(r *Report, rule string, fn *ssa.Function, acqs []acquisi
 func init() {
 	register("C17", func(r *Report) {
 		ruleGoHandshake(r)
+		ruleSpawnOnce(r, "go-handshake")
 		ruleOpenRelease(r)
 		ruleCloseMustCall(r)
 		ruleComponentClearsCache(r, "close-mustcall")
